@@ -1416,6 +1416,25 @@ def is_propagate_match(node):
     if node.get('k') != 'Match' or node.get('src') != 'Normal' or len(node['arms']) != 2:
         return False
     ty = node['scrut'].get('ty') or ''
+    if ty.lstrip('&').startswith('std::option::Option<'):
+        # `match opt { Some(v) => v, None => return Err(e) }` is `opt.ok_or(e)?`
+        ws = [canon.whole(a['pat'], ty) if a.get('guard') is None else None for a in node['arms']]
+        if {'Some'} not in ws or {'None'} not in ws:
+            return False
+        na = node['arms'][ws.index({'None'})]
+        sa = node['arms'][ws.index({'Some'})]
+        nb = na['body']
+        while nb.get('k') == 'Block' and not (nb['stmts'] and nb.get('expr') is not None) and (len(nb['stmts']) == 1 or (not nb['stmts'] and nb.get('expr') is not None)):
+            nb = nb['expr'] if nb.get('expr') is not None else nb['stmts'][0].get('e', {})
+            if nb is None:
+                return False
+        if nb.get('k') != 'Ret':
+            return False
+        sb = H.peel(sa['body'])
+        binds = H.pat_bindings(sa['pat'])
+        if not (sb.get('k') == 'Local' and len(binds) == 1 and sb['id'] == binds[0]['id']):
+            return False
+        return _hands_error_on(na['body'], {'k': 'Wild'})
     if not ty.lstrip('&').startswith('std::result::Result<'):
         return False
     ws = [canon.whole(a['pat'], ty) if a.get('guard') is None else None for a in node['arms']]
